@@ -195,7 +195,9 @@ Definition construct (k : kind) (inputs : list input) : st :=
             end in
   attach_all (cb_of k) s1.
 
-Inductive op := Fire (i : nat) (o : outcome) | CancelAgg.
+(** [MutateArg]: the caller mutates (removes from / clears / appends to / reorders) the very list object it passed to
+    the aggregate; the aggregate works on its own copy, so nothing happens *)
+Inductive op := Fire (i : nat) (o : outcome) | CancelAgg | MutateArg.
 
 Definition step (k : kind) (s : st) (o : op) : st :=
   match o with
@@ -212,6 +214,7 @@ Definition step (k : kind) (s : st) (o : op) : st :=
           | _ => s1
           end
       end
+  | MutateArg => s
   end.
 
 Definition run (k : kind) (inputs : list input) (ops : list op) : st :=
